@@ -124,6 +124,7 @@ pub fn pool_spellings(k: PoolKey) -> Vec<(&'static str, Vec<u8>)> {
     v.push(("long", long(k.left(), k.right())));
     v.push(("long-reversed", long(k.right(), k.left())));
     v.push(("long-equal", long(k.left(), k.left())));
+    v.push(("long-equal-right", long(k.right(), k.right())));
     v.dedup_by(|a, b| a.1 == b.1);
     v
 }
